@@ -84,6 +84,10 @@ type HeadWithTime = (String, i64);
 
 const DEFAULT_REMOTE_NAME: &str = "origin";
 
+/// The name of the directory, within the temporary repo directory, into which a commit is checked
+/// out before the complete checkout is moved to its `commit_path`.
+const CHECKOUT_STAGING_DIR_NAME: &str = "checkout";
+
 /// Everything needed to recognize a checkout in offline mode
 ///
 /// Since we are omitting `.git` folder to save disk space, we need an indexing file
@@ -544,18 +548,19 @@ pub fn fetch(fetch_id: u64, name: &str, pinned: &Pinned) -> Result<PathBuf> {
         repo.set_head_detached(id)?;
         verif_fault!("head_set");
 
-        // If the directory exists, remove it. Note that we already check for an existing,
-        // cached checkout directory for re-use prior to reaching the `fetch` function.
-        if path.exists() {
-            let _ = fs::remove_dir_all(&path);
-        }
-        verif_fault!("checkout_dir_removed");
-        fs::create_dir_all(&path)?;
-        verif_fault!("checkout_dir_created");
+        // Checkout into a staging directory within the temporary repo directory first and only
+        // move the checkout to `path` once it is complete. The existence of `path` is what marks
+        // the commit as fetched, so `path` must never hold a partially written checkout, e.g.
+        // after the process was killed or ran into an I/O error half way through. A staging
+        // directory that is left behind is removed together with the temporary repo directory.
+        let staging_path =
+            tmp_git_repo_dir(fetch_id, name, &pinned.source.repo).join(CHECKOUT_STAGING_DIR_NAME);
+        fs::create_dir_all(&staging_path)?;
+        verif_fault!("staging_dir_created");
 
-        // Checkout HEAD to the target directory.
+        // Checkout HEAD to the staging directory.
         let mut checkout = git2::build::CheckoutBuilder::new();
-        checkout.force().target_dir(&path);
+        checkout.force().target_dir(&staging_path);
         #[cfg(feature = "fuellabs_sway_verif")]
         let verif_checkout_guard = verif::checkout_points(&mut checkout);
         repo.checkout_head(Some(&mut checkout))?;
@@ -577,10 +582,25 @@ pub fn fetch(fetch_id: u64, name: &str, pinned: &Pinned) -> Result<PathBuf> {
 
         // Write the index file
         fs::write(
-            path.join(".forc_index"),
+            staging_path.join(".forc_index"),
             serde_json::to_string(&source_index)?,
         )?;
         verif_fault!("index_file_written");
+
+        // If the directory exists, remove it. Note that we already check for an existing,
+        // cached checkout directory for re-use prior to reaching the `fetch` function.
+        if path.exists() {
+            let _ = fs::remove_dir_all(&path);
+        }
+        verif_fault!("checkout_dir_removed");
+        if let Some(parent) = path.parent() {
+            fs::create_dir_all(parent)?;
+        }
+        verif_fault!("checkout_parent_created");
+
+        // Publish the complete checkout.
+        fs::rename(&staging_path, &path)?;
+        verif_fault!("checkout_published");
         Ok(())
     })?;
     Ok(path)
